@@ -14,7 +14,7 @@ use proptest::prelude::*;
 use serde::{Deserialize, Serialize};
 use serde_json::json;
 
-const RULE: &str = "cases = (type, left value, right value, Some/None flags) with values given as index lists into a per-type table of boundary values (MIN, MIN+1, -1, 0, 1, MAX-1, MAX; false/true; '\\0','a',U+D7FF,U+E000,U+10FFFF) - scalars: all pairs, slices: all sequences of length <= 3 over three values, all pairs; oracle = PartialEq::eq / Ord::cmp on the same values for every eq_*/cmp_* function, const_eq!/const_cmp!, coerce_to_cmp!(..).const_eq/const_cmp, try_equal! chains, const_eq_for!/const_cmp_for! (all comparator forms), the Option variants in all 4 Some/None combinations, assertc_eq!/assertc_ne! (panic iff != / ==); plus order laws on konst's own results over all triples; non-trivial = slices of different length whose first difference favours the shorter one, Option mixes, or boundary scalars; distinct by the whole tuple";
+const RULE: &str = "cases = (type, left value, right value, Some/None flags) with values given as index lists into a per-type table of boundary values (MIN, MIN+1, -1, 0, 1, MAX-1, MAX, half-width boundaries 2^(W/2)-1 / 2^(W/2) and pairs with equal upper half whose lower halves differ in their top bit; false/true; '\\0','a',U+D7FF,U+E000,U+10FFFF) - scalars: all pairs, slices: all sequences of length <= 3 over three values, all pairs; oracle = PartialEq::eq / Ord::cmp on the same values for every eq_*/cmp_* function, const_eq!/const_cmp!, coerce_to_cmp!(..).const_eq/const_cmp, try_equal! chains, const_eq_for!/const_cmp_for! (all comparator forms), the Option variants in all 4 Some/None combinations, assertc_eq!/assertc_ne! (panic iff != / ==); plus order laws on konst's own results over all triples; non-trivial = slices of different length whose first difference favours the shorter one, Option mixes, or boundary scalars; distinct by the whole tuple";
 
 #[derive(Serialize, Deserialize, Debug, Clone, Hash)]
 pub struct Case {
@@ -159,16 +159,16 @@ macro_rules! scalar_type {
 }
 
 scalar_type!(ck_u8, V_U8, u8, [0, 1, 127, 128, 254, 255], cmp_u8, eq_option_u8, cmp_option_u8, eq_slice_u8, cmp_slice_u8, eq_option_slice_u8, cmp_option_slice_u8);
-scalar_type!(ck_u16, V_U16, u16, [0, 1, 255, 256, u16::MAX - 1, u16::MAX], cmp_u16, eq_option_u16, cmp_option_u16, eq_slice_u16, cmp_slice_u16, eq_option_slice_u16, cmp_option_slice_u16);
-scalar_type!(ck_u32, V_U32, u32, [0, 1, 1 << 31, u32::MAX - 1, u32::MAX], cmp_u32, eq_option_u32, cmp_option_u32, eq_slice_u32, cmp_slice_u32, eq_option_slice_u32, cmp_option_slice_u32);
-scalar_type!(ck_u64, V_U64, u64, [0, 1, 1 << 32, 1 << 63, u64::MAX - 1, u64::MAX], cmp_u64, eq_option_u64, cmp_option_u64, eq_slice_u64, cmp_slice_u64, eq_option_slice_u64, cmp_option_slice_u64);
-scalar_type!(ck_u128, V_U128, u128, [0, 1, 1 << 64, 1 << 127, u128::MAX - 1, u128::MAX], cmp_u128, eq_option_u128, cmp_option_u128, eq_slice_u128, cmp_slice_u128, eq_option_slice_u128, cmp_option_slice_u128);
+scalar_type!(ck_u16, V_U16, u16, [0, 1, 255, 256, u16::MAX - 1, u16::MAX, 0x00FF, 0x0100, 0x0080, 0x1201, 0x1281], cmp_u16, eq_option_u16, cmp_option_u16, eq_slice_u16, cmp_slice_u16, eq_option_slice_u16, cmp_option_slice_u16);
+scalar_type!(ck_u32, V_U32, u32, [0, 1, 1 << 31, u32::MAX - 1, u32::MAX, 0xFFFF, 0x1_0000, 0x8000, 0x1234_0001, 0x1234_8001], cmp_u32, eq_option_u32, cmp_option_u32, eq_slice_u32, cmp_slice_u32, eq_option_slice_u32, cmp_option_slice_u32);
+scalar_type!(ck_u64, V_U64, u64, [0, 1, 1 << 32, 1 << 63, u64::MAX - 1, u64::MAX, u32::MAX as u64, 1 << 31, 0x1234_5678_0000_0001, 0x1234_5678_8000_0001], cmp_u64, eq_option_u64, cmp_option_u64, eq_slice_u64, cmp_slice_u64, eq_option_slice_u64, cmp_option_slice_u64);
+scalar_type!(ck_u128, V_U128, u128, [0, 1, 1 << 64, 1 << 127, u128::MAX - 1, u128::MAX, u64::MAX as u128, 1 << 63, (0x0123_4567_89AB_CDEF << 64) | 1, (0x0123_4567_89AB_CDEF << 64) | (1 << 63) | 1], cmp_u128, eq_option_u128, cmp_option_u128, eq_slice_u128, cmp_slice_u128, eq_option_slice_u128, cmp_option_slice_u128);
 scalar_type!(ck_usize, V_USIZE, usize, [0, 1, isize::MAX as usize, usize::MAX - 1, usize::MAX], cmp_usize, eq_option_usize, cmp_option_usize, eq_slice_usize, cmp_slice_usize, eq_option_slice_usize, cmp_option_slice_usize);
 scalar_type!(ck_i8, V_I8, i8, [i8::MIN, i8::MIN + 1, -1, 0, 1, i8::MAX - 1, i8::MAX], cmp_i8, eq_option_i8, cmp_option_i8, eq_slice_i8, cmp_slice_i8, eq_option_slice_i8, cmp_option_slice_i8);
-scalar_type!(ck_i16, V_I16, i16, [i16::MIN, i16::MIN + 1, -1, 0, 1, i16::MAX - 1, i16::MAX], cmp_i16, eq_option_i16, cmp_option_i16, eq_slice_i16, cmp_slice_i16, eq_option_slice_i16, cmp_option_slice_i16);
-scalar_type!(ck_i32, V_I32, i32, [i32::MIN, i32::MIN + 1, -1, 0, 1, i32::MAX - 1, i32::MAX], cmp_i32, eq_option_i32, cmp_option_i32, eq_slice_i32, cmp_slice_i32, eq_option_slice_i32, cmp_option_slice_i32);
-scalar_type!(ck_i64, V_I64, i64, [i64::MIN, i64::MIN + 1, -1, 0, 1, i64::MAX - 1, i64::MAX], cmp_i64, eq_option_i64, cmp_option_i64, eq_slice_i64, cmp_slice_i64, eq_option_slice_i64, cmp_option_slice_i64);
-scalar_type!(ck_i128, V_I128, i128, [i128::MIN, i128::MIN + 1, -1, 0, 1, i128::MAX - 1, i128::MAX], cmp_i128, eq_option_i128, cmp_option_i128, eq_slice_i128, cmp_slice_i128, eq_option_slice_i128, cmp_option_slice_i128);
+scalar_type!(ck_i16, V_I16, i16, [i16::MIN, i16::MIN + 1, -1, 0, 1, i16::MAX - 1, i16::MAX, 0x00FF, 0x0100, -0x0100, 0x1201, 0x1281], cmp_i16, eq_option_i16, cmp_option_i16, eq_slice_i16, cmp_slice_i16, eq_option_slice_i16, cmp_option_slice_i16);
+scalar_type!(ck_i32, V_I32, i32, [i32::MIN, i32::MIN + 1, -1, 0, 1, i32::MAX - 1, i32::MAX, 0xFFFF, 0x1_0000, -0x1_0000, 0x1234_0001, 0x1234_8001], cmp_i32, eq_option_i32, cmp_option_i32, eq_slice_i32, cmp_slice_i32, eq_option_slice_i32, cmp_option_slice_i32);
+scalar_type!(ck_i64, V_I64, i64, [i64::MIN, i64::MIN + 1, -1, 0, 1, i64::MAX - 1, i64::MAX, u32::MAX as i64, i32::MIN as i64, -(1 << 32), 0x1234_5678_0000_0001, 0x1234_5678_8000_0001], cmp_i64, eq_option_i64, cmp_option_i64, eq_slice_i64, cmp_slice_i64, eq_option_slice_i64, cmp_option_slice_i64);
+scalar_type!(ck_i128, V_I128, i128, [i128::MIN, i128::MIN + 1, -1, 0, 1, i128::MAX - 1, i128::MAX, u64::MAX as i128, i64::MIN as i128, 1 << 63, -((0x0123_4567_89AB_CDEF << 64) | 1), (0x0123_4567_89AB_CDEF << 64) | 1, (0x0123_4567_89AB_CDEF << 64) | (1 << 63) | 1], cmp_i128, eq_option_i128, cmp_option_i128, eq_slice_i128, cmp_slice_i128, eq_option_slice_i128, cmp_option_slice_i128);
 scalar_type!(ck_isize, V_ISIZE, isize, [isize::MIN, isize::MIN + 1, -1, 0, 1, isize::MAX - 1, isize::MAX], cmp_isize, eq_option_isize, cmp_option_isize, eq_slice_isize, cmp_slice_isize, eq_option_slice_isize, cmp_option_slice_isize);
 scalar_type!(ck_bool, V_BOOL, bool, [false, true], cmp_bool, eq_option_bool, cmp_option_bool, eq_slice_bool, cmp_slice_bool, eq_option_slice_bool, cmp_option_slice_bool);
 scalar_type!(ck_char, V_CHAR, char, ['\0', 'a', '\u{7f}', '\u{80}', '\u{d7ff}', '\u{e000}', '\u{10ffff}'], cmp_char, eq_option_char, cmp_option_char, eq_slice_char, cmp_slice_char, eq_option_slice_char, cmp_option_slice_char);
@@ -176,16 +176,16 @@ scalar_type!(ck_char, V_CHAR, char, ['\0', 'a', '\u{7f}', '\u{80}', '\u{d7ff}', 
 /// (name, scalar value count, checker)
 const SCALARS: [(&str, usize, fn(&Case) -> Result<(), String>); 14] = [
     ("u8", 6, ck_u8),
-    ("u16", 6, ck_u16),
-    ("u32", 5, ck_u32),
-    ("u64", 6, ck_u64),
-    ("u128", 6, ck_u128),
+    ("u16", 11, ck_u16),
+    ("u32", 10, ck_u32),
+    ("u64", 10, ck_u64),
+    ("u128", 10, ck_u128),
     ("usize", 5, ck_usize),
     ("i8", 7, ck_i8),
-    ("i16", 7, ck_i16),
-    ("i32", 7, ck_i32),
-    ("i64", 7, ck_i64),
-    ("i128", 7, ck_i128),
+    ("i16", 12, ck_i16),
+    ("i32", 12, ck_i32),
+    ("i64", 12, ck_i64),
+    ("i128", 13, ck_i128),
     ("isize", 7, ck_isize),
     ("bool", 2, ck_bool),
     ("char", 7, ck_char),
@@ -523,6 +523,16 @@ fn explore(ctx: &mut Ctx) {
         for a in &seqs {
             for b in &seqs {
                 options(ctx, case(name, "slice", a.clone(), b.clone()));
+            }
+        }
+        // the last two table entries are "half-word partners" (equal upper half, lower halves differing in their top
+        // bit) for the 16..128-bit integer types: slices over them and the first value
+        if n >= 8 {
+            let seqs = kvh::gen::seqs(&[0, n - 2, n - 1], 2);
+            for a in &seqs {
+                for b in &seqs {
+                    options(ctx, case(name, "slice", a.clone(), b.clone()));
+                }
             }
         }
         if ctx.too_many() {
